@@ -108,3 +108,17 @@ Example C01_nonvacuous :
   find_mode ex1_tblc {| main := ex1_A; las := [] |} [0;1;1;0]%N = Ok (Some (2%N, 4)) /\
   find_mode ex1_tblc {| main := ex1_A; las := [] |} [0;1;2]%N = Ok (Some (0%N, 2)).
 Proof. vm_compute. repeat split; reflexivity. Qed.
+
+(* NO ALARM ON THE SPECIFICATION'S STREAM. The judge of plain token streams (check_stream: every token
+   a maximal candidate at its start, no candidate at any skipped position) accepts the stream of the
+   deterministic specification, for all valid mode graphs, all inputs and all start modes. Together
+   with the capstone (compiled model = specification) the judge is therefore silent on every stream of
+   the compiled model. *)
+From Scnr Require Import OracleStream.
+Theorem C01_judge_accepts_specification_stream :
+  forall leaf modes,
+  (forall m t m', In m modes -> nassoc t (sm_trans m) = Some m' -> m' < length modes) ->
+  forall fuel cur s pos, length s < fuel -> cur < length modes ->
+  check_stream leaf fuel modes cur s pos (spec_tokens leaf fuel modes cur s pos) = true.
+Proof. exact check_accepts_spec. Qed.
+Print Assumptions C01_judge_accepts_specification_stream.
